@@ -249,7 +249,9 @@ class CallMixin:
             raise Unsupported('generator setup of %s: %s' % (con.qualname, e))
         finally:
             self.field_consts, self.stable_lists = saved_fc, saved_stable
-        private = [g for g in scratch.ghost if g.startswith('out') or g not in st.ghost]
+        for g, t in (getattr(con, 'extra_ghosts', None) or {}).items():      # ghosts of generator calls the callee makes itself
+            scratch.ghost.setdefault(g, t)
+        private = [g for g in scratch.ghost if g.startswith('out') or g.startswith('$gen:') or g not in st.ghost]
         s = st.copy()
         for key in (mods or []):
             cname, field = key
